@@ -614,7 +614,12 @@ def check(ctx, world):
 
     # ---- W9: outputs are terms over the session's own inputs
     for cname in session.PUBLIC_CLASSES:
-        cm = session.build(world, ev, cname)
+        for cm in session.models(world, ev, cname):
+            w9(ctx, cname, cm)
+
+
+def w9(ctx, cname, cm):
+    if True:
         allowed = {"pw", "G", "entropy_f", "msg"} | {v.n for v in cm.syms.values() if isinstance(v, Sym)}
         for s in cm.started:
             extra = [x for x in session.free_syms(s.value) if x not in allowed]
